@@ -72,6 +72,9 @@ def positions(knots):
     out += [hi, hi + 0.5, hi + 1000.0]
     # exactly zero (the peat surface) is a limit like any other
     out += [0.0, -0.0]
+    # close to an end knot (a few 1e-6 of its value) but not on it
+    out += [lo * (1 + 3e-6), lo * (1 - 3e-6), hi * (1 + 3e-6),
+            hi * (1 - 3e-6)]
     return out
 
 
@@ -79,7 +82,7 @@ def spaces(tier):
     sets = knot_sets(tier)
     index = []
     for si, subset in enumerate(sets):
-        npos = 2 * len(subset) + 5
+        npos = 2 * len(subset) + 9
         for pattern in PATTERNS:
             for a in range(npos):
                 index.append((si, pattern, a))
